@@ -375,6 +375,7 @@ func NewWorld(seed uint64, plan, sched *Tape) *World {
 	}
 	w.Gen = NewGen(w)
 	masswallet.SimYield = w.S.Gate
+	ldb.SimBeforeWriterLock = writerLockGate
 	masswallet.SimPreferQuit = w.S.PreferQuit
 	worldMu.Lock()
 	currentWorld = w
